@@ -1,11 +1,131 @@
 (* Wire-level wrappers of property C18: decode arguments from sx, run the model, encode.
    Dispatch.v routes a block of unit numbers here; [k] is the offset inside the block. *)
 From Coq Require Import ZArith QArith List Bool.
-From VL Require Import Prelude.Sx.
+From VL Require Import Prelude.Sx Prelude.PyDict Model.GetNBest Model.Convert Model.Cardinal Model.Units
+     Model.State Model.Alias.
 Import ListNotations.
 Open Scope Z_scope.
 
+Definition E_RUNTIME : Z := 16.
+
+(* ---- unit 160: ProportionalApproval call sequence on ONE shared object
+   args: (strict ((votes n) ...)) -> (0 (out ...)) *)
+Definition of_pav_out (o : pav_out) : sx :=
+  match o with
+  | PO_ok r => ok (L (map of_res r))
+  | PO_nie => err E_NIE
+  | PO_index => err E_INDEX
+  end.
+Definition as_pav_call (s : sx) : option pav_call :=
+  match s with
+  | L [v; n] => match as_aprofile v, as_nat n with Some v, Some n => Some (v, n) | _, _ => None end
+  | _ => None
+  end.
+Definition u_pav_seq (a : sx) : sx :=
+  match a with
+  | L [st; cs] =>
+      match as_bool st, as_listof as_pav_call cs with
+      | Some strict, Some calls => ok (L (map of_pav_out (outs (pav_step strict) pav_init calls)))
+      | _, _ => bad_input
+      end
+  | _ => bad_input
+  end.
+
+(* ---- unit 161: Borda scorer shared by a RankedToPositionalVotes converter
+   args: (base (call ...)) ; call = (0 votes) convert | (1 k) set_n_candidates | (2 n) scores *)
+Definition as_borda_call (s : sx) : option borda_call :=
+  match s with
+  | L [A 0; v] => match as_rprofile v with Some v => Some (BConvert v) | None => None end
+  | L [A 1; k] => match as_nat k with Some k => Some (BSetN k) | None => None end
+  | L [A 2; n] => match as_nat n with Some n => Some (BScores n) | None => None end
+  | _ => None
+  end.
+Definition of_borda_out (o : borda_out) : sx :=
+  match o with
+  | BO_none => ok (L [])
+  | BO_scores (inl l) => ok (L (map of_Q l))
+  | BO_scores (inr BE_value) => err E_VALUE
+  | BO_scores (inr BE_runtime) => err E_RUNTIME
+  | BO_conv (Some d) => of_gdict d
+  | BO_conv None => err E_VALUE
+  end.
+Definition u_borda_seq (a : sx) : sx :=
+  match a with
+  | L [A base; cs] =>
+      match as_listof as_borda_call cs with
+      | Some calls => ok (L (map of_borda_out (outs (borda_step base) borda_init calls)))
+      | None => bad_input
+      end
+  | _ => bad_input
+  end.
+
+(* ---- unit 162: seeded selection with the recorded draws as the generator oracle
+   args: (kind votes n tape) ; kind 0 = RandomUnrankedBallotSelector, 1 = Sortitor
+   -> (0 (chosen draws_left)) *)
+Definition u_seeded_select (a : sx) : sx :=
+  match a with
+  | L [A kind; v; n; tp] =>
+      match as_dict as_pos as_Z v, as_nat n, as_listof as_Z tp with
+      | Some votes, Some n, Some tape =>
+          let body := if (kind =? 0)%Z then ballot_body (list Z) tape_randrange else sortitor_body (list Z) tape_randrange in
+          match body tape (votes, n) with
+          | (SO_ok l, rest) => ok (L [L (map of_pos l); A (Z.of_nat (length rest))])
+          | (SO_index, _) => err E_INDEX
+          | (SO_value, _) => err E_VALUE
+          end
+      | _, _, _ => bad_input
+      end
+  | _ => bad_input
+  end.
+
+(* ---- unit 163: MultistageDistributor / UnusedVotesDistributor over the store
+   args: (kind repaired depth prev (stage_result ...)) ; kind 0 multistage, 1 unused votes ;
+         depth 1: dicts cand -> int ; depth 2: dicts constituency -> dict cand -> int
+   -> (0 (result prev_gains_after_the_call)) *)
+Definition flat_sdict (d : list (C * Z)) : sdict := map (fun kv => (fst kv, VInt (snd kv))) d.
+Definition flat_wt (d : list (C * Z)) : wt := WOwn (map (fun kv => (fst kv, WInt (snd kv))) d).
+Definition nested_wt (d : list (C * list (C * Z))) : wt := WOwn (map (fun kv => (fst kv, flat_wt (snd kv))) d).
+(* inner dictionaries at locations 0..m-1, the outer one at m *)
+Definition nested_store (d : list (C * list (C * Z))) : store * loc :=
+  (map (fun kv => flat_sdict (snd kv)) d
+     ++ [map (fun ikv => (fst (snd ikv), VRef (fst ikv))) (combine (seq 0 (length d)) d)],
+   length d).
+
+Definition of_outcome (depth : nat) (prev : loc) (r : outcome (store * wt)) : sx :=
+  match r with
+  | Ok (st', t') => ok (L [read_tree depth st' t'; read_tree depth st' (WAlias prev)])
+  | Crash c => err c
+  end.
+
+Definition run_ms (kind : Z) (repaired : bool) (d : nat) (st : store) (prev : loc) (results : list wt)
+  : outcome (store * wt) :=
+  if (kind =? 0)%Z then ms_evaluate union_order (map (fun r => fun (_ : store) (_ : wt) => r) results) repaired d st prev
+  else uv_evaluate union_order results false d st prev.
+
+Definition u_multistage (a : sx) : sx :=
+  match a with
+  | L [A kind; rp; A 1; p; rs] =>
+      match as_bool rp, as_dict as_pos as_Z p, as_listof (as_dict as_pos as_Z) rs with
+      | Some repaired, Some prev, Some results =>
+          of_outcome 1 0%nat (run_ms kind repaired 0 [flat_sdict prev] 0%nat (map flat_wt results))
+      | _, _, _ => bad_input
+      end
+  | L [A kind; rp; A 2; p; rs] =>
+      match as_bool rp, as_dict as_pos (as_dict as_pos as_Z) p,
+            as_listof (as_dict as_pos (as_dict as_pos as_Z)) rs with
+      | Some repaired, Some prev, Some results =>
+          let (st, l) := nested_store prev in
+          of_outcome 2 l (run_ms kind repaired 1 st l (map nested_wt results))
+      | _, _, _ => bad_input
+      end
+  | _ => bad_input
+  end.
+
 Definition u_c18 (k : Z) (a : sx) : sx :=
   match k with
+  | 0 => u_pav_seq a
+  | 1 => u_borda_seq a
+  | 2 => u_seeded_select a
+  | 3 => u_multistage a
   | _ => bad_input
   end.
